@@ -67,12 +67,13 @@ def pushBytes (b : Buf) (s : Src) (len : Nat) : Option Buf :=
       JanetByteView view = janet_getbytes(argv, i);
       if (view.bytes == buffer->data) { janet_buffer_ensure(buffer, buffer->count + view.len, 2); view.bytes = buffer->data; }
       janet_buffer_push_bytes(buffer, view.bytes, view.len);
-    `guard = false` models the code without the `if`. -/
-def pushSelf (guard : Bool) (b : Buf) : Option Buf :=
+    (`viaExtra = true`: the guard grows with `janet_buffer_extra(buffer, view.len)` instead, as /repo does since the
+    64-bit length check was introduced.)  `guard = false` models the code without the `if`. -/
+def pushSelf (guard : Bool) (b : Buf) (viaExtra : Bool := false) : Option Buf :=
   let len := b.count
   let view := Src.dataAt b.gen
   if guard then
-    let b1 := ensure b (b.count + len) 2
+    let b1 := if viaExtra then extra b len else ensure b (b.count + len) 2
     pushBytes b1 (Src.dataAt b1.gen) len
   else pushBytes b view len
 
